@@ -154,16 +154,17 @@ impl<'a> LexicographicIterator for SortedVecLexIterator<'a> {
     }
 
     fn seek_lower_bound(&mut self, target: &str) -> std::result::Result<bool, Self::Error> {
-        match self.binary_search_by(|s| s.cmp(target)) {
-            Ok(pos) => {
-                self.position = Some(pos);
-                Ok(true) // Exact match
-            }
-            Err(pos) => {
-                self.position = if pos < self.strings.len() { Some(pos) } else { None };
-                Ok(false) // No exact match
-            }
-        }
+        // first string >= target (the first of a run of duplicates, not any of them)
+        let pos = self.strings.partition_point(|s| s.as_str() < target);
+        self.position = if pos < self.strings.len() { Some(pos) } else { None };
+        Ok(pos < self.strings.len() && self.strings[pos] == target)
+    }
+
+    fn seek_upper_bound(&mut self, target: &str) -> std::result::Result<bool, Self::Error> {
+        // first string > target (past every duplicate of the target)
+        let pos = self.strings.partition_point(|s| s.as_str() <= target);
+        self.position = if pos < self.strings.len() { Some(pos) } else { None };
+        Ok(false)
     }
 
     fn size_hint(&self) -> Option<usize> {
